@@ -454,9 +454,18 @@ def _erf_axioms(new, old):
 def _sqrt_axioms(new, old, max_pairs=10):
     ax = []
     pairwise = len(new) + len(old) <= max_pairs    # order lemmas grow quadratically
+    syms = {}
+
+    def sy(t):
+        if t.get_id() not in syms:
+            syms[t.get_id()] = frozenset(symx.consts_of([t]))
+        return syms[t.get_id()]
+
     for i, (x, sa) in enumerate(new):
         ax.append(z3.Implies(x >= 0, z3.And(sa >= 0, sa * sa == x)))
         for y, sb in (list(old) + new[i + 1:]) if pairwise else ():
+            if not (sy(x) & sy(y)):
+                continue        # unrelated quantities (different data points) are never compared
             ax.append(z3.And(z3.Implies(x < y, sa < sb), z3.Implies(y < x, sb < sa),
                              z3.Implies(x == y, sa == sb)))
     return ax
@@ -575,11 +584,12 @@ class RUnit(_Unit):
 class PathProver:
     """All obligations of one path: the hypotheses are abstracted once."""
 
-    def __init__(self, u, hyps):
+    def __init__(self, u, hyps, always=0):
         self.u = u
         self.ab = Abstraction()
         self.hyps = []
         self.axioms = []
+        self.always = always      # the first *always* hypotheses (input assumptions) are never sliced away
         self.add_hyps(hyps)
 
     def add_hyps(self, hyps):
@@ -588,16 +598,50 @@ class PathProver:
         self._raw = getattr(self, "_raw", []) + hyps
         self.hyps = [self.ab.apply(h) for h in self._raw]
 
+    def _syms(self, t):
+        k = t.get_id()
+        if k not in self._symcache:
+            self._symcache[k] = (t, frozenset(symx.consts_of([t])))
+        return self._symcache[k][1]
+
+    def relevant(self, phi, pool):
+        """Cone of influence: the members of *pool* that share symbols
+        (transitively) with *phi*.  Dropping hypotheses is sound; it keeps
+        nlsat away from the variables of unrelated data points."""
+        want = set(self._syms(phi))
+        rest = [(h, self._syms(h)) for h in pool]
+        keep = []
+        changed = True
+        while changed:
+            changed = False
+            nxt = []
+            for h, sy in rest:
+                if not sy or (sy & want):
+                    keep.append(h)
+                    if not sy <= want:
+                        want |= sy
+                        changed = True
+                else:
+                    nxt.append((h, sy))
+            rest = nxt
+        return keep
+
     def prove(self, name, rels, on_cex, mandatory=True, sample=False, blockers=None):
         phi = rels if z3.is_expr(rels) else conj(rels)
         ax_new = self.ab.extend([phi])
         if ax_new:
             self.axioms += ax_new
         phi2 = self.ab.apply(phi)
+        if not hasattr(self, "_symcache"):
+            self._symcache = {}
+        pool = self.relevant(phi2, list(self.hyps[self.always:]) + list(self.axioms))
+        hset = {h.get_id() for h in self.hyps}
+        hyps = list(self.hyps[:self.always]) + [h for h in pool if h.get_id() in hset]
+        axioms = [h for h in pool if h.get_id() not in hset]
         self.u.pure = not self.ab.other_uf
         self.u.prefer_nlsat = bool(self.ab.sqrt)
         try:
-            return self.u.prove(name, phi2, self.hyps, on_cex, axioms=list(self.axioms),
+            return self.u.prove(name, phi2, hyps, on_cex, axioms=axioms,
                                 mandatory=mandatory, sample=sample, blockers=blockers)
         finally:
             self.u.pure = False
